@@ -11,7 +11,10 @@ use crate::drive::{self, Emit, End, Input, PanicInfo, StdHost, Top};
 use abra_core::verif::CompiledProgram;
 use abra_core::vm::{Runtime, RuntimeStatusKind};
 
-pub const BUDGET_ALTS: [u32; 7] = [1, 0, 2, 3, 5, 64, u32::MAX];
+/// Budgets offered at a deviation. No u32::MAX here: with a spinning (channel-blocked) task in the run
+/// queue, `run_n_steps(k)` only returns a pending host call of another thread after k steps, so a
+/// huge budget is an (embedder-chosen) multi-minute wait, not a different behaviour.
+pub const BUDGET_ALTS: [u32; 7] = [1, 0, 2, 3, 5, 64, 1000];
 pub const DELAY_ALTS: [u32; 4] = [0, 1, 2, 3];
 
 #[derive(Clone, Copy, Debug, PartialEq, Eq)]
@@ -207,6 +210,9 @@ pub fn explore(p: &EProg, bound: usize, step_cap: u64, exec_cap: u64, visit: &mu
         }
         let x = execute(p, &prefix, step_cap);
         count += 1;
+        if std::env::var("VERIF_DEBUG").is_ok() && count % 1000 == 1 {
+            eprintln!("explore {}: exec #{count} prefix_len={} points={} steps={} work={}", p.name, prefix.len(), x.choices.len(), x.total_steps, work.len());
+        }
         visit(&x);
         if used >= bound {
             continue;
